@@ -684,7 +684,7 @@ def st_profile(draw, desc, cfg, max_total=None, max_kw=12):
     cap_list = min(cap_list, 256 ** idsz - 1)
     th = [t for t in desc.thresholds(cfg) if 1 <= t <= cap_list]
     kind = draw(st.sampled_from(["small", "small", "boundary", "boundary", "pow2_single", "pow2_plus1_many", "one_posting",
-                                 "single_keyword", "total_near_pow2", "ones"]))
+                                 "single_keyword", "total_near_pow2", "ones", "uniform_pow2"]))
     lens = []
     if kind == "small":
         k = draw(st.integers(1, max_kw))
@@ -701,6 +701,9 @@ def st_profile(draw, desc, cfg, max_total=None, max_kw=12):
         lens = [min(2 ** j + 1, cap_list)] * k
     elif kind == "one_posting":
         lens = [1]
+    elif kind == "uniform_pow2":
+        # 2^a keywords with 2^b postings each: N is a power of two and every list length too (no padding entry is needed anywhere)
+        lens = [min(2 ** draw(st.integers(0, 3)), cap_list)] * min(2 ** draw(st.integers(1, 4)), max_kw if max_kw >= 2 else 2)
     elif kind == "single_keyword":
         lens = [draw(st.one_of(st.integers(1, cap_list), st.sampled_from(th) if th else st.just(1)))]
     elif kind == "total_near_pow2":
